@@ -710,6 +710,8 @@ def observers(ref: RefTable, tier, wide=False):
         ops.append(['flat', 'given'])
     ops.append(['flat_tool', 'auto'])
     ops.append(['flat_tool', 'given'])
+    if ref.has_undefined():
+        ops.append(['flat_tool', 'given_undefined_equal'])
     return ops
 
 
@@ -1222,7 +1224,7 @@ def bfs_roots(tier, seed):
     """The main search (base alphabet, complete observer list, depth bfs_depth) and a second search over the wide
     alphabet (value magnitudes, undefined values) to its own depth bound, with the reduced observer list."""
     roots = [dict(table=t, tier=tier) for t in ('A', 'B', 'C')]
-    roots += [dict(table=t, tier=tier, wide=True, depth=3 if tier == 'quick' else 4) for t in ('A', 'B', 'C')]
+    roots += [dict(table=t, tier=tier, wide=True, depth=3, all_observers=tier == 'thorough') for t in ('A', 'B', 'C')]
     return roots
 
 
